@@ -88,7 +88,8 @@ def gen_map(rs, small=False):
             break
         kind = rs.weighted([(4, "mem"), (3, "memu"), (4, "fields"), (2, "cnt"), (2, "file"), (2, "array"), (4, "memory"), (1, "range"), (2, "input"), (2, "output"), (2, "flag")])
         if kind in ("file", "array", "memory", "range"):
-            n = 2 if kind == "file" else rs.range(2, 3) if kind == "array" else rs.choice([2, 2, 3, 4, 4, 8])
+            nest = rs.choice([1, 2]) if kind == "file" else 0
+            n = (2 if nest == 1 else 4) if kind == "file" else rs.range(2, 3) if kind == "array" else rs.choice([2, 2, 3, 4, 4, 8])
             starts = [w for w in free if all((w + i) in free for i in range(n))]
             if not starts:
                 kind = "mem"
@@ -97,6 +98,8 @@ def gen_map(rs, small=False):
                 for i in range(n):
                     free.remove(w0 + i)
                 e = {"kind": kind, "word": w0, "n": n}
+                if kind == "file":
+                    e["nest"] = nest
                 if kind == "memory":
                     e["mode"] = rs.choice(["IMMEDIATE", "IMMEDIATE", "IGNORE", "READBACK", "SPLIT_WORDS", "SPLIT_WORDS"])
                     e["inline"] = rs.below(3) == 0
@@ -173,6 +176,11 @@ def render_map(m, tag=""):
                 "",
             ]
             root.append(f"    r{i}: C{tag}_{i}[{off:#x}]")
+        elif k == "file" and e.get("nest") == 2:
+            # a RegFile inside a RegFile (the inner one at a non-zero offset of the outer one, word 1 of the outer is a hole)
+            L += [f"class H{tag}_{i}(reg32.RegFile, word_count=2):", "    m0: reg32.MemWord[0x0]", "    m1: reg32.MemUWord[0x4]", ""]
+            L += [f"class G{tag}_{i}(reg32.RegFile, word_count=4):", "    top: reg32.MemWord[0x0]", f"    inner: H{tag}_{i}[0x8]", ""]
+            root.append(f"    r{i}: G{tag}_{i}[{off:#x}]")
         elif k == "file":
             L += [f"class G{tag}_{i}(reg32.RegFile, word_count=2):", "    m0: reg32.MemWord[0x0]", "    m1: reg32.MemUWord[0x4]", ""]
             root.append(f"    r{i}: G{tag}_{i}[{off:#x}]")
@@ -323,6 +331,8 @@ class Model:
                 self.words[e["word"]] = {"kind": k, "wmask": 0xFFFF, "val": 0, "rd": 0, "wr": 0}
             elif k in ("file", "array"):
                 for i in range(e["n"]):
+                    if k == "file" and e.get("nest") == 2 and i == 1:
+                        continue  # hole inside the outer RegFile
                     self.words[e["word"] + i] = {"kind": "mem", "wmask": 0xFFFFFFFF, "val": 0}
             elif k == "memory":
                 for i in range(e["n"]):
